@@ -156,7 +156,9 @@ def jobs(tier):
     dj = slice_func(SP, r'^void dijkstra\(\s*\n\s*unsigned const s,\s*\n\s*std::vector<Node<T> > & vs,', "dijkstra(s,vs,d)")
     hdr3, rb = fragment_loop(dj, r'for\(unsigned i=0;i<u->neighbours\.size\(\);i\+\+\)', "dijkstra [relaxation: loop body for one neighbour]")
     rb.text = body_continue_to_return(rb)      # a `continue` in the body ends this iteration
-    rb_text = subst(rb, [(r'\bT\b', 'VT', 3), (r'std::numeric_limits<VT>::max\(\)', 'VERIF_TMAX', 1)])
+    # the template parameter is renamed wherever it occurs (hit counts are taken from the text, so an edit that adds or removes a use is still extracted)
+    rb_text = subst(rb, [(r'\bT\b', 'VT', len(re.findall(r'\bT\b', rb.text))),
+                         (r'std::numeric_limits<VT>::max\(\)', 'VERIF_TMAX', len(re.findall(r'std::numeric_limits<T>::max\(\)', rb.text)))])
     relax_cxx = (base + "#define VT long long\n#define VERIF_TMAX (1LL << 40)\n"
                  'extern "C" void w_decreaseKey(void *heap, void *qnode, void *val);\n'
                  "template <class T> struct PairNode;\n"
@@ -171,6 +173,35 @@ def jobs(tier):
                   slices=[dj, rb, n1], replay=replay_c17,
                   domain="T = long long: every distance in [0,2^40], weight in [0,2^20], any adjacency-list length; one arbitrary neighbour other than the node itself",
                   expect=[r'w_relax\.postcondition', r'assigns']))
+    # ---------------- dijkstra's main loop: EVERY node's entry of the output row is written (with the node's distance when it left the queue),
+    #                  reachable or not -- callers hand in rows from a bare `new T[n]`
+    dtail = fragment_tail(dj, r'while\(!Q\.isEmpty\(\)\)', "dijkstra [main loop: from `while(!Q.isEmpty())`]")
+    hdr0, rb0 = fragment_loop(dtail, r'for\(unsigned i=0;i<u->neighbours\.size\(\);i\+\+\)', "dijkstra [relaxation loop, replaced as a whole by a visit in the shell]")
+    i0 = dtail.text.find(hdr0); i1 = dtail.text.find(rb0.text, i0)
+    if dtail.text.count(rb0.text) != 1 or i0 < 0 or i1 < 0 or dtail.text[i0 + len(hdr0):i1].strip():
+        raise Undecided("C17: dijkstra: relaxation loop not found exactly once in the main loop")
+    dt_text = dtail.text[:i0] + "w_relax_visit((void *)u, 0);   /* the whole relaxation loop over u's neighbours */" + dtail.text[i1 + len(rb0.text):]
+    dt_sl = Slice(dtail.name + " [relaxation body replaced by a visit]", dtail.rel, dt_text, dtail.line, kind="tail-fragment")
+    dt_text = subst(dt_sl, [(r'std::numeric_limits<T>::max\(\)', 'VERIF_TMAX', len(re.findall(r'std::numeric_limits<T>::max\(\)', dt_text)))]) if "numeric_limits" in dt_text else dt_text
+    dt_text = re.sub(r'\bT\b', 'VT', dt_text)
+    dml_cxx = (base + "#define VT long long\n#define VERIF_TMAX (1LL << 40)\n"
+               'extern "C" { bool w_heap_isEmpty(void *h); void *w_heap_extractMin(void *h); void w_decreaseKey(void *heap, void *qnode, void *val); void w_relax_visit(void *u, unsigned i);\n'
+               'void *verif_g_heap; long long *verif_g_d; }\n'
+               "template <class T> struct PairNode;\n"
+               "// the pairing heap stays behind contracts (what it hands out, and that it hands out every node before it is empty, is assumed there)\n"
+               "template <class T, class TCompare> class PairingHeap { public:\n"
+               "  bool isEmpty() const { return w_heap_isEmpty((void *)this); }\n  T extractMin() { return (T)w_heap_extractMin((void *)this); }\n"
+               "  void decreaseKey(PairNode<T> *p, const T & newVal) { w_decreaseKey((void *)this, (void *)p, (void *)newVal); } };\n"
+               "namespace shortest_paths {\ntemplate <typename T>\n" + n1.text + "\ntemplate <typename T>\n" + n2.text + "\n"
+               "// the main loop under its real names (parameterless: loop-contract symbols must not contain commas)\n"
+               "void verif_dijkstra_main_loop()\n{ PairingHeap<Node<VT>*,CompareNodes<VT> >& Q = *(PairingHeap<Node<VT>*,CompareNodes<VT> > *)verif_g_heap; VT *d = verif_g_d;\n" +
+               dt_text + "\n}\n}\n"
+               'extern "C" void w_dijkstra_main_loop(void *heap, long long *d, unsigned long K) { verif_g_heap = heap; verif_g_d = d; shortest_paths::verif_dijkstra_main_loop(); }\n')
+    js.append(Job("dijkstra_writes_every_entry", "B", spec, "h_dml", cxx=dml_cxx, defines=["JOB_dml"], slices=[dj, dtail, rb0, n1], replay=replay_c17,
+                  flags=["--sat-solver", "cadical"], backend="sat:cadical", unwind=5,
+                  bound="3 nodes (main loop unwound 5 times with an unwinding assertion); goto-instrument --dfcc with a loop contract ran out of memory on this loop",
+                  domain="3 nodes with arbitrary contents, handed out by the heap in ANY order (a superset of the order a priority queue produces); the relaxation loop abstracted to a no-op on the output row",
+                  expect=[r'h_dml\.assertion']))
     # ---------------- johnsons: loop body for one source k, dijkstra behind a contract (T -> VT)
     jo = slice_func(SP, r'^void johnsons\(\s*$', "johnsons")
     hdr4, jb = fragment_loop(jo, r'for\(unsigned k=0;k<n;k\+\+\)', "johnsons [loop body for one source]")
@@ -206,6 +237,7 @@ ASSUMPTIONS = [
     "diagonal a reachable pair is scaled by idealLength and marked 2, an unreachable pair keeps the sentinel and is marked 0; the loops themselves (writes through every row "
     "pointer) and the call of johnsons are not; the tail after the post-processing (bounded: one edge) marks the edge's end points adjacent in G and has D outside its frame "
     "(the topology add-on's hook is assumed not to touch D)",
+    "dijkstra_writes_every_entry is a BOUNDED stand-in (3 nodes, the heap hands them out in any order, relaxation abstracted): every node's entry of the output row is written",
     "NOT decided (residue): everything beyond the bounds; agreement of the three algorithms with each other",
 ]
 EXPLANATION = ("Bounded stand-in only (DESIGN 5/C17): for every multigraph with the stated numbers of nodes and edges (any end points, so self-loops and parallel edges are included) "
